@@ -40,6 +40,12 @@ pub const RIGHTS: &[&str] = &[
     "r1bqk2r/ppp2ppp/2n5/3pP3/1b1Pn3/2N2N2/PP3PPP/R1BQKB1R w KQkq d6 0 7",
     "4k3/8/8/8/8/8/4P3/R3K2R w KQ - 0 1",
     "r3k2r/4p3/8/8/8/8/8/4K3 b kq - 0 1",
+    // rooks facing each other on an open file with castling rights still held: a rook (or king)
+    // taking a rook on its home corner must take the victim's right with it
+    "rnbqk1nr/pppp1pp1/8/4p3/4P3/8/PPPP1PP1/RNBQKBNR w KQkq - 0 1",
+    "r1bqk2r/pppp1pb1/2n2n2/4p3/4P3/2N2N2/PPPP1P2/R1BQKB1R w KQkq - 0 1",
+    "rn2kbnr/1ppqpppp/8/8/8/8/1PPQPPPP/RN2KBNR w KQkq - 0 1",
+    "r3k2r/1pp2pp1/8/8/8/8/1PP2PP1/R3K2R b KQkq - 0 1",
 ];
 
 /// Promotion, in-check and few-move positions.
@@ -476,3 +482,25 @@ pub fn book_castle_position(rng: &mut Rng64) -> Pos {
     }
     p
 }
+
+
+/// Move sequences that exercise each rule of the position update (castling rights lost by
+/// moving or losing a rook or king, en passant, promotions, castling itself).
+pub const SPECIAL_LINES: &[(&str, &str)] = &[
+    ("r1bqk2r/pppp1pb1/2n2n2/4p3/4P3/2N2N2/PPPP1P2/R1BQKB1R w KQkq - 0 1", "h1h8 g7h8"),
+    ("r3kbnr/1ppqpppp/2n5/8/8/2N5/1PPQPPPP/R3KBNR w KQkq - 0 1", "a1a8 c6b8 a8b8"),
+    ("r3k2r/8/8/8/8/8/8/R3K2R w KQkq - 0 1", "h1h8 e8e7"),
+    ("r3k2r/8/8/8/8/8/8/R3K2R b KQkq - 0 1", "a8a1 e1e2"),
+    ("r3k2r/8/8/8/8/6n1/8/R3K2R b KQkq - 0 1", "g3h1"),
+    ("r3k2r/8/8/8/8/8/8/R3K2R w KQkq - 0 1", "h1g1 h8g8 g1h1 g8h8"),
+    ("r3k2r/8/8/8/8/8/8/R3K2R w KQkq - 0 1", "e1e2 e8e7 e2e1 e7e8"),
+    ("r3k2r/pppq1ppp/2npbn2/2b1p3/2B1P3/2NPBN2/PPPQ1PPP/R3K2R w KQkq - 0 1", "e1g1 e8c8"),
+    ("r3k2r/pppq1ppp/2npbn2/2b1p3/2B1P3/2NPBN2/PPPQ1PPP/R3K2R w KQkq - 0 1", "e1c1 e8g8"),
+    ("rnbqkbnr/ppp1p1pp/8/3pPp2/8/8/PPPP1PPP/RNBQKBNR w KQkq f6 0 3", "e5f6"),
+    ("rnbqkbnr/pppp1ppp/8/8/3PpP2/8/PPP1P1PP/RNBQKBNR b KQkq f3 0 3", "e4f3"),
+    ("rnbqkbnr/pppp1ppp/8/8/4p3/8/PPPP1PPP/RNBQKBNR w KQkq - 0 3", "d2d4 e4d3"),
+    ("n1n5/PPPk4/8/8/8/8/4Kppp/5N1N b - - 0 1", "g2h1q"),
+    ("n1n5/PPPk4/8/8/8/8/4Kppp/5N1N w - - 0 1", "b7a8n"),
+    ("8/P6k/8/8/8/8/7K/8 w - - 0 1", "a7a8r h7g7"),
+    ("r3k2r/1P6/8/8/8/8/8/4K3 w kq - 0 1", "b7a8q"),
+];
